@@ -73,6 +73,10 @@ def gen_history(g, n, csv, w, malformed, bulk=0):
         ops.append(bulk_insert(g, bulk))
         if r.random() < 0.7:
             g.tbase = bulk         # later points are mostly newer than the bulk: the index stays valid
+        # per-measurement getters over the many positions, through the database and through a handle
+        m = V.hx(r.choice(g.meas))
+        ops.append(r.choice([["timestamps", m], ["H", ["timestamps", m]]]))
+        ops.append(r.choice([["H", ["fieldvalues", V.hx("f"), m]], ["H", ["tagvalues", ["keys"], m]], ["mall", m, "0"]]))
     reads = []
     for _ in range(n):
         if reads and r.random() < 0.06:
@@ -147,6 +151,13 @@ def refine(case, d, use_model, with_probes):
         # only the handle misbehaves: C10 — and the operation's own property as experienced through the handle
         d = dict(d, props=["C10"] + [p for p in d["props"] if p != "C10"])
     return d
+
+
+def safe_idx(runner, idx, probe):
+    try:
+        return runner._idx_answer(idx, probe)
+    except Exception as e:
+        return "exc " + type(e).__name__
 
 
 def _worker(args):
@@ -469,9 +480,12 @@ class Family:
                                 problems.append(f"contents after the call raised {raised}: {after} (before: {before}, accepted prefix: {prefix})")
                             if db.index.valid:
                                 fresh = Index()
-                                fresh.build([db._storage._deserialize_storage_item(i) for i in db._storage])
+                                try:
+                                    fresh.build([db._storage._deserialize_storage_item(i) for i in db._storage])
+                                except Exception as e:
+                                    problems.append(f"an index cannot be built over the contents any more: {type(e).__name__}")
                                 for pr in probes():
-                                    a1, a2 = R._idx_answer(db.index, pr), R._idx_answer(fresh, pr)
+                                    a1, a2 = safe_idx(R, db.index, pr), safe_idx(R, fresh, pr)
                                     if a1 != a2:
                                         problems.append(f"the index claims to be valid but {V.sx(pr)} answers {a1}, a rebuilt index {a2}")
                                         break
@@ -546,7 +560,7 @@ class Family:
                     R = ImplRunner.__new__(ImplRunner)
                     R.tf = tf
                     for pr in probes():
-                        a1, a2 = R._idx_answer(db.index, pr), R._idx_answer(fresh, pr)
+                        a1, a2 = safe_idx(R, db.index, pr), safe_idx(R, fresh, pr)
                         if a1 != a2:
                             runner_probe.append((V.sx(pr), a1, a2))
                     if len(db) != len(contents):
